@@ -147,15 +147,25 @@ type Uint64MapBuilder struct {
 	lock     sync.Mutex
 }
 
+// uint64MapLayoutFor returns the layout of a map requested with the given
+// number of bucket and tag bits. A bucket header packs
+// (id >> BucketBits) << TagBits | tag into 64 bits, which only holds every
+// id if BucketBits >= TagBits, so a small map with tags is given more buckets
+// than requested. Readers take the layout from the encoded map.
+func uint64MapLayoutFor(bucketBits int, tagBits int) Uint64MapLayout {
+	if bucketBits < tagBits {
+		bucketBits = tagBits
+	}
+	return Uint64MapLayout{BucketBits: bucketBits, TagBits: tagBits}
+}
+
 func NewUint64MapBuilder(bucketBits int, tagBits int) *Uint64MapBuilder {
+	layout := uint64MapLayoutFor(bucketBits, tagBits)
 	return &Uint64MapBuilder{
-		Layout: Uint64MapLayout{
-			BucketBits: bucketBits,
-			TagBits:    tagBits,
-		},
-		buckets:  NewByteArraysBuilder(1 << bucketBits),
+		Layout:   layout,
+		buckets:  NewByteArraysBuilder(1 << layout.BucketBits),
 		offset:   -1,
-		pointers: make([]uint32, (1<<bucketBits)+1),
+		pointers: make([]uint32, (1<<layout.BucketBits)+1),
 	}
 }
 
